@@ -29,7 +29,9 @@ Proof. intros H. unfold vsame, vst. rewrite kps_emit. cbn [vstk]. apply vstep_ne
 Lemma v_stamp pos w c : vsame pos w (stamp w c).
 Proof. unfold vsame, vst. rewrite kps_stamp. reflexivity. Qed.
 Lemma v_plain pos k q : plain_kind k = true -> Nv pos k q. Proof. left. assumption. Qed.
-#[local] Hint Resolve v_refl v_trans v_frame v_emit v_stamp v_plain : vdb.
+Lemma v_frame2 pos w w' : w_trace w' = w_trace w -> w_retry w' = w_retry w -> vsame pos w w'. Proof. intros H _. apply v_frame, H. Qed.
+Lemma v_put pos w q r : True -> vsame pos w (put_rstate w q r). Proof. intros _. apply v_frame. reflexivity. Qed.
+#[local] Hint Resolve v_refl v_trans v_frame2 v_put v_emit v_stamp v_plain : vdb.
 #[local] Hint Extern 1 (Nv _ _ _) => (right; lia) : vdb.
 
 Ltac inst_v pos lem := first [eapply lem with (N := Nv pos) | eapply lem]; eauto with vdb.
@@ -71,7 +73,9 @@ Lemma vj_stamp w c : VJrel w (stamp w c).
 Proof. intros HJ pos. unfold vst. rewrite kps_stamp. apply HJ. Qed.
 Lemma vj_plain k q : plain_kind k = true -> Nvj k q.
 Proof. unfold Nvj. destruct k; cbn; intros H; try reflexivity; discriminate. Qed.
-#[local] Hint Resolve vj_refl vj_trans vj_frame vj_emit vj_stamp vj_plain : vjdb.
+Lemma vj_frame2 w w' : w_trace w' = w_trace w -> w_retry w' = w_retry w -> VJrel w w'. Proof. intros H _. apply vj_frame, H. Qed.
+Lemma vj_put w q r : True -> VJrel w (put_rstate w q r). Proof. intros _. apply vj_frame. reflexivity. Qed.
+#[local] Hint Resolve vj_refl vj_trans vj_frame2 vj_put vj_emit vj_stamp vj_plain : vjdb.
 #[local] Hint Extern 1 (Nvj _ _) => reflexivity : vjdb.
 
 Ltac inst_vj lem := first [eapply lem with (N := Nvj) | eapply lem]; eauto with vjdb.
@@ -201,7 +205,7 @@ Proof.
   assert (J0 : VJ (fresh_world now ext key b l k c script)).
   { assert (J00 : VJ (fresh_world0 now ext key b l k c script)) by (intros pos; cbn; discriminate).
     unfold fresh_world. destruct ext as [[t e]|]; [|exact J00]. destruct (t <=? now); [|exact J00].
-    apply (same_fire_ext VJrel vj_refl vj_trans vj_frame); exact J00. }
+    apply (same_fire_ext VJrel vj_refl vj_trans vj_frame2); exact J00. }
   apply VJ_drain. unfold execute.
   pose proof (compose_VJ fuel stack 0%nat (length stack) 0%nat _ J0) as J1.
   destruct (compose fuel 0 stack (length stack) 0%nat (fresh_world now ext key b l k c script)) as [r w1]. cbn [snd] in J1.
